@@ -65,7 +65,7 @@ func (c *c17AppendCase) input() map[string]any {
 
 func c17HistAppend(ctx *core.Ctx) {
 	r := ctx.Rand("c17hist/append")
-	n := ctx.Scale(20000, 200000)
+	n := ctx.Scale(20000, 100000)
 	cases := make([]*c17AppendCase, n)
 	for i := range cases {
 		c := &c17AppendCase{maxLevel: []int{1, 1, 2, 3, 7}[r.Intn(5)]}
@@ -267,12 +267,12 @@ type c17HistPending struct {
 }
 
 func c17HistWriters(ctx *core.Ctx) {
-	ncases := ctx.Scale(4, 40)
+	ncases := ctx.Scale(4, 16)
 	var mu sync.Mutex
 	var all []c17HistPending
 	var wg sync.WaitGroup
 	sem := make(chan struct{}, 16)
-	for _, e := range gen.Catalog {
+	for _, e := range gen.WithGeo() {
 		nullable := false
 		for _, p := range e.Schema.Columns() {
 			if leaf, ok := e.Schema.Lookup(p...); ok && (leaf.MaxDefinitionLevel > 0 || leaf.MaxRepetitionLevel > 0) {
